@@ -451,10 +451,12 @@ type connection struct {
 	key      key // client->server
 	c2s, s2c halfconnection
 	mu       sync.Mutex
+	removed  bool // taken out of the pool, the object may be reused at any time (guarded by mu)
 }
 
 func (c *connection) reset(k key, s Stream, ts time.Time) {
 	c.key = k
+	c.removed = false
 	base := halfconnection{
 		nextSeq:  invalidSequence,
 		ackSeq:   invalidSequence,
@@ -648,15 +650,24 @@ func (a *Assembler) AssembleWithContext(netFlow gopacket.Flow, t *layers.TCP, ac
 	ci := ac.GetCaptureInfo()
 	timestamp := ci.Timestamp
 
-	conn, half, rev = a.connPool.getConnection(key, false, timestamp, t, ac)
-	if conn == nil {
-		if *debugLog {
-			log.Printf("%v got empty packet on otherwise empty connection", key)
+	// This loop handles the race where another assembler or a flush removes the
+	// connection from the pool (and the pool possibly hands the object to another
+	// key) between the lookup and the lock.  It should loop 0-1 times.
+	for {
+		conn, half, rev = a.connPool.getConnection(key, false, timestamp, t, ac)
+		if conn == nil {
+			if *debugLog {
+				log.Printf("%v got empty packet on otherwise empty connection", key)
+			}
+			return
 		}
-		return
+		verifBeforeLock(&conn.mu)
+		conn.mu.Lock()
+		if !conn.removed && (conn.key == key && half == &conn.c2s || conn.key == key.Reverse() && half == &conn.s2c) {
+			break
+		}
+		conn.mu.Unlock()
 	}
-	verifBeforeLock(&conn.mu)
-	conn.mu.Lock()
 	defer conn.mu.Unlock()
 	if half.lastSeen.Before(timestamp) {
 		half.lastSeen = timestamp
@@ -1276,7 +1287,6 @@ func (a *Assembler) FlushWithOptions(opt FlushOptions) (flushed, closed int) {
 	closes := 0
 	flushes := 0
 	for _, conn := range conns {
-		remove := false
 		verifBeforeLock(&conn.mu)
 		conn.mu.Lock()
 		for _, half := range []*halfconnection{&conn.s2c, &conn.c2s} {
@@ -1288,14 +1298,13 @@ func (a *Assembler) FlushWithOptions(opt FlushOptions) (flushed, closed int) {
 				closes++
 			}
 		}
-		if conn.s2c.closed && conn.c2s.closed && conn.s2c.lastSeen.Before(opt.TC) && conn.c2s.lastSeen.Before(opt.TC) {
-			remove = true
-		}
-		conn.mu.Unlock()
-		if remove {
-			verifYield("flush:before-remove")
+		// a connection already removed (here, by closing its second half, or
+		// by somebody else since the snapshot was taken) must not be removed
+		// again: its key may belong to a new connection by now
+		if !conn.removed && conn.s2c.closed && conn.c2s.closed && conn.s2c.lastSeen.Before(opt.TC) && conn.c2s.lastSeen.Before(opt.TC) {
 			a.connPool.remove(conn)
 		}
+		conn.mu.Unlock()
 	}
 	return flushes, closes
 }
